@@ -97,33 +97,8 @@ def check(ctx):
                else f"group universe is {uni}: a county / district that exists only through unexpected units gets no row")
     # ---- R2 --------------------------------------------------------------------------------------
     key_availability(ctx, "C11.R2")
-    # a group that exists only through unexpected units can have ZERO two-party votes (a unit listed before it has counted
-    # anything, or with third-party votes only): every quotient by a group turnout total in the bootstrap aggregate functions has
-    # to map 0/0 to 0 (nan_to_num), or the new group's prediction / bounds come out NaN
-    bc0 = repo.cls(BM, "BootstrapElectionModel")
-    nq = 0
-    for qn in ("get_aggregate_predictions", "get_aggregate_prediction_intervals"):
-        qf = ctx.fn(BM, f"BootstrapElectionModel.{qn}")
-        qs = mb.summarize(qf, {"estimand": ("const", "margin")}, self_cls=bc0)
-        pool = [t_ for _, _, t_, _ in qs.assigns] + [w[2] for w in qs.attr_writes] + [qs.ret()]
-        guarded, quotients = set(), []
-        for t_ in pool:
-            for x in ir.walk(t_):
-                if x[0] == "call" and x[1][0] == "global" and x[1][1].endswith("nan_to_num") and x[2]:
-                    g_ = x[2][0]
-                    while g_[0] == "call" and g_[1][0] == "attr" and g_[1][2] in ("reshape", "flatten"):
-                        g_ = g_[1][1]
-                    guarded.add(g_)
-                if x[0] == "bin" and x[1] == "/" and any(y[0] == "bin" and y[1] == "@" for y in ir.walk(x[3])) and x not in quotients:
-                    quotients.append(x)
-        for x in quotients:
-            nq += 1
-            ok = x in guarded
-            ctx.ob("C11.R3.zero-turnout", util.key(qf, b_loc(mb, x, qf)), ok, qf.where(b_loc(mb, x, qf)),
-                   "the quotient by the group's turnout total is wrapped in nan_to_num (0/0 -> 0)" if ok
-                   else f"{ir.show(x, maxdepth=2)[:120]} divides by a group turnout total without nan_to_num: a group created by an unexpected unit "
-                        f"with zero two-party votes gets NaN instead of 0")
-    ctx.sites("C11.R3.zero-turnout", nq, 4, "quotients by a group turnout total in the bootstrap aggregate functions")
+    zero_turnout_quotients(ctx, mb, "C11.R3.zero-turnout",
+                           "a group created by an unexpected unit with zero two-party votes gets NaN instead of 0")
     # the id parsers that recover the keys of an unexpected unit must be total: ids of units we do not know have no guaranteed
     # shape, so an index >= 1 into the '_'-split id needs a length guard on every path (else IndexError ends the whole run)
     CD_ = "elexmodel.handlers.data.CombinedData"
@@ -196,6 +171,45 @@ def check(ctx):
     _belief(ctx)
     # ---- R7 the national summary counts the contests of the election ----------------------------------------
     _summary_contests(ctx)
+
+
+def zero_turnout_quotients(ctx, mb, rule, consequence):
+    """Shared by C11.R3 and C06.R9: a group can have ZERO predicted two-party votes (it exists only through an unexpected unit that has
+    counted nothing, or through a fully reported unit without two-party votes): every quotient by a group turnout total in the bootstrap
+    aggregate functions has to map 0/0 to 0 (nan_to_num around the plain division), or the group's prediction / bounds come out NaN.
+    Four such quotients exist today (two in each function); fewer recognisable ones means one was rewritten into a form that is not
+    known to be guarded (Series.div(fill_value=..) fills missing INPUTS, not a NaN result) and is reported."""
+    repo = ctx.repo
+    bc0 = repo.cls(BM, "BootstrapElectionModel")
+    nq = 0
+    for qn in ("get_aggregate_predictions", "get_aggregate_prediction_intervals"):
+        qf = ctx.fn(BM, f"BootstrapElectionModel.{qn}")
+        qs = mb.summarize(qf, {"estimand": ("const", "margin")}, self_cls=bc0)
+        pool = [t_ for _, _, t_, _ in qs.assigns] + [w[2] for w in qs.attr_writes] + [qs.ret()]
+        guarded, quotients, other = set(), [], []
+        for t_ in pool:
+            for x in ir.walk(t_):
+                if x[0] == "call" and x[1][0] == "global" and x[1][1].endswith("nan_to_num") and x[2]:
+                    g_ = x[2][0]
+                    while g_[0] == "call" and g_[1][0] == "attr" and g_[1][2] in ("reshape", "flatten"):
+                        g_ = g_[1][1]
+                    guarded.add(g_)
+                if x[0] == "bin" and x[1] == "/" and any(y[0] == "bin" and y[1] == "@" for y in ir.walk(x[3])) and x not in quotients:
+                    quotients.append(x)
+                # division methods: Series.div / divide / truediv by a turnout total
+                if x[0] == "call" and x[1][0] == "attr" and x[1][2] in ("div", "divide", "truediv", "rdiv") and x[2] \
+                        and any(y[0] == "bin" and y[1] == "@" for y in ir.walk(x[2][0])) and x not in other:
+                    other.append(x)
+        for x in quotients + other:
+            nq += 1
+            ok = x in guarded
+            ctx.ob(rule, util.key(qf, b_loc(mb, x, qf)), ok, qf.where(b_loc(mb, x, qf)),
+                   "the quotient by the group's turnout total is wrapped in nan_to_num (0/0 -> 0)" if ok
+                   else f"{ir.show(x, maxdepth=2)[:120]} divides by a group turnout total without nan_to_num: {consequence}")
+    if nq < 4:
+        qf = ctx.fn(BM, "BootstrapElectionModel.get_aggregate_predictions")
+        ctx.ob(rule, "BootstrapElectionModel|all four quotients by a group turnout total are guarded divisions", False, qf.where(),
+               f"only {nq} of the 4 quotients by a group turnout total are recognisable as nan_to_num(x / total): {consequence}")
 
 
 # ---------------------------------------------------------------------------------------------------
